@@ -617,7 +617,7 @@ func (r *TypeClassSummonContext) lookupTypeClassInstanceTypePkg(ctx CurrentConte
 
 			ti := metafp.GetTypeInfo(obj.Type())
 			rhsType := ti.ResultType()
-			if rhsType.IsInstanceOf(ctx.tc.TypeClass) {
+			if rhsType.IsInstanceOf(req.TypeClass) {
 				ins := DefinedInstance{
 					instanceOf: f,
 					pk:         f.Pkg,
